@@ -315,6 +315,10 @@ def judge(script, proj, timeout=120, audit=False):
     for i, op in enumerate(ops):
         cmd = op.split()[0]
         c, m, s = code[i], model[i], spec[i]
+        if proj.get("region") and c == m and c == "panic":
+            # inside the region of the recorded finding the model predicts this very panic:
+            # the tie model-code holds, the property is not judged here (known finding)
+            return res
         if c in ("hang", "abort") or (proj.get("nopanic") and c == "panic"):
             # never acceptable for any property that looks at this op; for others stop judging
             if proj.get("nopanic") or proj["ops"] is None or cmd in proj["ops"]:
@@ -332,6 +336,8 @@ def judge(script, proj, timeout=120, audit=False):
             fm = fs_model[i] if i < len(fs_model) else "?"
             if cmd in ("push", "pushrun"):
                 okfs = fc in ("same", "append")
+            elif cmd == "open":
+                okfs = True      # open may repair (shorten) or rebuild; what it does is tied to the model below
             else:
                 okfs = fc == "same"
             if not okfs:
@@ -353,6 +359,18 @@ def judge(script, proj, timeout=120, audit=False):
         else:
             c2, m2 = canon_pair(c, m, s)
         ok_model = (c2 == m2)
+        if proj.get("region"):
+            ok_ms0, _ = meets_spec(op, m, s, roles)
+            if not ok_ms0:
+                # the model itself deviates from the specification here: this is the recorded
+                # defect at work (the theorems exclude it by hypothesis).  Only the tie between
+                # model and code is judged on this op.
+                if not ok_model:
+                    res.kind = "corr"
+                    res.op_index, res.op, res.code, res.model, res.spec = i, op, c, m, s
+                    res.why = "implementation and model disagree (inside the known-finding region)"
+                    return res
+                continue
         if not ok_spec:
             res.kind = "prop"
             res.op_index, res.op, res.code, res.model, res.spec = i, op, c, m, s
